@@ -72,6 +72,14 @@ impl Display for LoopRange {
     }
 }
 
+#[cfg(aws_smt_strings_verif)]
+impl LoopRange {
+    /// Both bounds of the range (for external verification harnesses)
+    pub fn verif_bounds(&self) -> (u32, Option<u32>) {
+        (self.0, self.1)
+    }
+}
+
 impl LoopRange {
     /// Construct the finite range [i, j]
     pub fn finite(i: u32, j: u32) -> LoopRange {
